@@ -78,6 +78,7 @@ def _compare(spec, net, iface, constraints, rec, stage):
             # whole-number currents handed over as Python ints (mixed with float rows)
             vals = [int(v) if float(v).is_integer() else v for v in vals]
         dict_sched[sid] = vals
+    net_before = (np.array(net.magnitudes, dtype=float), None if net.constraint_matrix is None else np.array(net.constraint_matrix, dtype=float))
     info = iface.infrastructure_info()
     info_before = (np.array(info.constraint_matrix, dtype=float), np.array(info.constraint_limits, dtype=float), np.array(info.phases, dtype=float))
     got = {}
@@ -129,6 +130,11 @@ def _compare(spec, net, iface, constraints, rec, stage):
         "query_changed_infrastructure_info",
         lambda: "%s: a feasibility query changed the InfrastructureInfo it was handed (matrix before %r, after %r)" % (stage, info_before[0].tolist(), np.asarray(info.constraint_matrix).tolist()),
     )
+    require(
+        np.array_equal(net_before[0], np.asarray(net.magnitudes, dtype=float)) and (net_before[1] is None or np.array_equal(net_before[1], np.asarray(net.constraint_matrix, dtype=float))),
+        "query_changed_the_network",
+        lambda: "%s: feasibility queries changed the network's own limits / matrix (limits before %r, after %r)" % (stage, net_before[0].tolist(), np.asarray(net.magnitudes, dtype=float).tolist()),
+    )
     for linear in modes:
         want, res, worst = got[linear]
         if want is None:
@@ -152,6 +158,40 @@ def _compare(spec, net, iface, constraints, rec, stage):
     return labels
 
 
+def _whatif(spec, iface, constraints, rec):
+    """A what-if study on the description object itself: the algorithm-side check is asked, one
+    coefficient (or phase) of the SAME InfrastructureInfo is edited in place, and it is asked again
+    - the second answer must follow the edited data."""
+    ids = [s["id"] for s in spec["stations"]]
+    phases = [s["phase"] for s in spec["stations"]]
+    M = [list(map(float, r)) for r in spec["schedule"]]
+    Mnp = np.array(M, dtype=float)
+    if (Mnp < 0).any():
+        return set()
+    vt = spec["net_vtol"] if spec["call_vtol"] is None else spec["call_vtol"]
+    rt = spec["net_rtol"] if spec["call_rtol"] is None else spec["call_rtol"]
+    info = iface.infrastructure_info()
+    infrastructure_constraints_feasible(Mnp, info, linear=False, violation_tolerance=vt, relative_tolerance=rt)
+    w = spec["whatif"]
+    rows = _rows(constraints, ids)
+    j, i = w["row"] % len(rows), w["col"] % len(ids)
+    if w["kind"] == "coeff":
+        rows[j][i] = float(w["value"])
+        info.constraint_matrix[j, i] = w["value"]
+    else:
+        phases = list(phases)
+        phases[i] = float(w["phase"])
+        info.phases[i] = w["phase"]
+    limits = [c["limit"] for c in constraints]
+    want, worst = phasor.verdict(rows, limits, phases, M, vt, rt, linear=False)
+    if want is None:
+        rec.count("ambiguous")
+        return {"ambiguous"}
+    got = bool(infrastructure_constraints_feasible(Mnp, info, linear=False, violation_tolerance=vt, relative_tolerance=rt))
+    require(got == want, "algorithm_phasor_%s_after_editing_the_description" % ("accepts_infeasible" if got else "rejects_feasible"), lambda: "after editing %s of the InfrastructureInfo in place the algorithm-side check says %r, the definition on the edited data %r" % (w["kind"], got, want))
+    return {"description_edited_in_place"}
+
+
 def prop(spec, rec):
     net = build(spec)
     sim = Simulator(net, None, EventQueue(), START, verbose=False)
@@ -168,6 +208,8 @@ def prop(spec, rec):
         constraints = sorted(constraints, key=lambda c: order.index(c["name"]))
         labels |= {"after_update"}
         labels |= _compare(spec, net, iface, constraints, rec, "after update %d" % (k + 1))
+    if spec.get("whatif") and constraints:
+        labels |= _whatif(spec, iface, constraints, rec)
     ids = [s["id"] for s in spec["stations"]]
     mixed = any(
         len({(c["coeffs"][i] > 0) for i in c["coeffs"] if c["coeffs"][i] != 0}) == 2
@@ -176,6 +218,8 @@ def prop(spec, rec):
     )
     if mixed:
         labels.add("mixed_sign_with_phases")
+    if len(spec["schedule"][0]) > 1024:
+        labels.add("more_than_1024_periods")
     if len(spec["schedule"][0]) > 1:
         labels.add("multi_period")
         cols = list(zip(*spec["schedule"]))
@@ -245,7 +289,7 @@ def cases(draw):
     if not any(direction):
         direction[draw(st.integers(0, n - 1))] = 1.0
     fr = _frontier_scale(ns, direction, vt, rt, aim_linear) if ns["constraints"] else None
-    mode = draw(st.sampled_from(["boundary", "boundary", "boundary", "boundary", "random", "signed", "permuted", "whole"]))
+    mode = draw(st.sampled_from(["boundary", "boundary", "boundary", "boundary", "random", "signed", "permuted", "whole"] + (["long"] if draw(st.integers(0, 4)) == 0 else [])))
     if mode == "signed":
         # currents of both signs (a station feeding back): cancellations inside |.| matter
         sched = [[draw(st.one_of(st.just(0.0), st.floats(-64, 64).map(lambda x: round(x, 3)), st.sampled_from([12.0, -12.0, 32.0, -32.0]))) for _ in range(T)] for _ in range(n)]
@@ -269,7 +313,22 @@ def cases(draw):
             perm = list(range(n)) if t == 0 else draw(st.permutations(range(n)))
             for i in range(n):
                 sched[i][t] = base[perm[i]]
-    elif fr is None or mode in ("random", "permuted"):
+    elif fr is not None and mode == "long":
+        # a multi-day horizon: thousands of benign periods and a few on the frontier, one of
+        # them near the end
+        T = draw(st.sampled_from([1025, 1440, 2049, 2500, 4100]))
+        s0, j, g = fr
+        c = ns["constraints"][j]
+        tol = phasor.tolerance(c["limit"], vt, rt)
+        lo = [s0 * 0.5 * direction[i] for i in range(n)]
+        sched = [[lo[i]] * T for i in range(n)]
+        spots = [T - 1 - draw(st.integers(0, 200)), draw(st.integers(0, T - 1))]
+        for t in spots:
+            delta = draw(st.sampled_from([3 * tol, -3 * tol, 1e-3 * c["limit"], -1e-3 * c["limit"], 0.5 * c["limit"]]))
+            sc_ = max(0.0, (c["limit"] + tol + delta) / g)
+            for i in range(n):
+                sched[i][t] = sc_ * direction[i]
+    elif fr is None or mode in ("random", "permuted", "long"):
         sched = [[draw(st.one_of(st.just(0.0), st.floats(0, 64).map(lambda x: round(x, 3)))) for _ in range(T)] for _ in range(n)]
     else:
         s0, j, g = fr
@@ -310,6 +369,7 @@ def cases(draw):
             "linear_first": draw(st.booleans()),
             "prior_lenient": draw(st.integers(0, 3)) == 0,
             "int_rows": draw(st.lists(st.sampled_from(ids), unique=True, max_size=n)),
+            "whatif": draw(st.one_of(st.none(), st.none(), st.fixed_dictionaries({"kind": st.sampled_from(["coeff", "coeff", "phase"]), "row": st.integers(0, 5), "col": st.integers(0, 5), "value": st.sampled_from([0.0, 1.0, -1.0, 2.0, 0.5]), "phase": st.sampled_from([0.0, 30.0, -90.0, 150.0, 180.0])}))),
         }
     )
     return spec
@@ -378,7 +438,7 @@ def subchecks(tier):
             prop,
             quick=3000,
             thorough=400000,
-            floors={"near_boundary": 0.144, "multi_period": 0.269, "near_boundary_linear": 0.08, "after_update": 0.1, "mixed_sign_with_phases": 0.178, "signed_schedule": 0.03, "equal_total_columns": 0.021, "int_and_float_rows": 0.08},
+            floors={"near_boundary": 0.144, "multi_period": 0.269, "near_boundary_linear": 0.08, "after_update": 0.1, "mixed_sign_with_phases": 0.178, "signed_schedule": 0.03, "equal_total_columns": 0.021, "int_and_float_rows": 0.08, "description_edited_in_place": 0.08, "more_than_1024_periods": 0.003},
         ),
         Given("unconstrained", unconstrained_cases(), prop_unconstrained, quick=60, thorough=3000, jobs_quick=2),
     ]
